@@ -1023,6 +1023,55 @@ func earlyCases() []earlyCase {
 	return out
 }
 
+
+// ---------------------------------------------------------------------------
+// F11: volume marathon: one request per block answered every block, volume tiers far apart
+
+func runMarathon(a *App, mon *Mon, seed int64, variant int) {
+	p := baseParams()
+	p.MinDepositMultiple = 1
+	p.MaxRequestTimeout = 100
+	start := []int64{10, 200, 65500, 1<<32 - 30}[variant%4]
+	r := NewRunAt(a, fmt.Sprintf("marathon-%d", variant), seed, p, mon, start)
+	act := MakeActors()
+	act.FundAll(r, 1_000_000_000, 1_000_000, 3)
+	r.Begin()
+	s := &Sc{r: r, A: act, p: p}
+	tiers := [][2]string{{"10", "0.9"}, {"25", "0.5"}, {"50", "0.7"}}
+	pricing := fmt.Sprintf(`{"price":"%d%s","promotions_by_volume":[`, []int{100, 7, 13, 1}[variant%4], denom)
+	for i, t := range tiers {
+		if i > 0 {
+			pricing += ","
+		}
+		pricing += fmt.Sprintf(`{"volume":%s,"discount":"%s"}`, t[0], t[1])
+	}
+	pricing += "]}"
+	p1, p2 := s.A.SignProv[0], s.A.SignProv[1]
+	s.define("svc")
+	s.bind("svc", p1, s.A.Owners[0], 100000, pricing, 1)
+	s.bind("svc", p2, s.A.Owners[1], 100000, price("2"), 100)
+	cons := s.A.Consumers[0]
+	id := s.call("svc", []sdk.AccAddress{p1}, cons, 1000, 1, false, true, 1, -1)
+	// a long-timeout context runs alongside and crosses the height byte boundaries in flight
+	long := s.call("svc", []sdk.AccAddress{p2}, s.A.Consumers[1], 1000, 100, false, true, 100, 2)
+	for b := 0; b < 70; b++ {
+		for _, rid := range s.pendingOf(id, p1) {
+			s.respond(rid, p1, 0)
+		}
+		if b == 65 {
+			for _, rid := range s.pendingOf(long, p2) {
+				s.respond(rid, p2, 0)
+			}
+		}
+		s.block()
+	}
+	s.ctl("kill", id, cons)
+	for b := 0; b < 140; b++ {
+		s.block()
+	}
+	s.done()
+}
+
 // ---------------------------------------------------------------------------
 
 func sampleIdx(rng *rand.Rand, n, k int) []int {
@@ -1112,6 +1161,10 @@ func directedJobs(prop, tier string, seed int64) []job {
 	for _, i := range sampleIdx(rng, len(ec), q(20*weight("C12", "C10", "C11", "C16", "C09"), len(ec))) {
 		c := ec[i]
 		add("early", func(a *App, mon *Mon) *Run { runEarly(a, mon, seed, c); return mon.run })
+	}
+	for v := 0; v < q(2*weight("C07", "C18", "C11"), 16); v++ {
+		v := v
+		add("marathon", func(a *App, mon *Mon) *Run { runMarathon(a, mon, seed, v); return mon.run })
 	}
 	for v := 0; v < q(2, 4); v++ {
 		v := v
